@@ -48,11 +48,17 @@ class MachineryError(Exception):
     pass
 
 
-def run_programs(cfg, programs, nproc=None, timeout=900):
-    """Run programs on the real code (fresh worker processes), return traces in program order."""
+def run_programs(cfg, programs, nproc=None, timeout=900, fresh=False):
+    """Run programs on the real code (fresh worker processes), return traces in program order.
+    fresh=True: ONE interpreter per program -- for families whose point is state that survives between calls (caches, memo tables):
+    what an earlier, unrelated program of the batch left in the process would otherwise hide or fake such state."""
     nproc = nproc or NPROC
     if not programs:
         return []
+    if fresh:
+        from concurrent.futures import ThreadPoolExecutor
+        with ThreadPoolExecutor(nproc) as ex:
+            return [t[0] for t in ex.map(lambda p: run_programs(cfg, [p], nproc=1, timeout=timeout), programs)]
     orig = programs
     if len(set(p["id"] for p in programs)) != len(programs):
         # identical programs generated twice are run once; the same id with different content is a generator bug
